@@ -9,7 +9,7 @@ def config(T):
         "C06": dict(pkg="c06", race_quick=True, tests=[T("TestKnownTypename"), T("TestSiblingHops", race=True), T("TestTransparent", 640, 16000, sq=8, st=16), T("TestDirectivesGateway", 80, 4000, sq=4, st=8),
                                                        T("TestConcurrentRefresh", 30, 600, sq=1, st=4, race=True, timeout_q=900), T("TestRefreshAfterChange", 400, 6000, sq=4, st=8), T("TestCancelledRequest", 600, 12000, sq=4, st=8, race=True)]),
         "C07": dict(pkg="c07", tests=[T("TestLiveSQL", 6400, 48000, sq=8, st=16, race=True)]),
-        "C08": dict(pkg="c08", tests=[T("TestPinned"), T("TestCache", 7200, 96000, sq=8, st=16, race=True)]),
+        "C08": dict(pkg="c08", tests=[T("TestPinned"), T("TestCache", 7200, 96000, sq=8, st=16, race=True), T("TestRegisterRace", 1600, 24000, sq=4, st=8, pkg="c04")]),
         "C09": dict(pkg="c09", fuzz=[dict(name="FuzzMergeAlgebra", secs=45)], tests=[T("TestKnownOrder"), T("TestMergeAlgebra", 12000, 160000, sq=8, st=16), T("TestVersionedGateway", 240, 8000, sq=4, st=8), T("TestRefreshAfterChange", 240, 4000, sq=3, st=8, pkg="c06")]),
         "C10": dict(pkg="c10", fuzz=[dict(name="FuzzBatchTransparent", secs=40)], tests=[T("TestBatchTransparent", 4800, 48000, sq=8, st=16, race=True)]),
         "C11": dict(pkg="c11", fuzz=[dict(name="FuzzPagination", secs=45)], tests=[T("TestPagination", 18000, 240000, sq=8, st=16)]),
@@ -24,6 +24,6 @@ def config(T):
         "C18": dict(pkg="c18", fuzz=[dict(name="FuzzArgs", secs=45), dict(name="FuzzArgsNegative", secs=30)], tests=[T("TestArgs", 24000, 400000, sq=6, st=16), T("TestArgsNegative", 12000, 100000, sq=4, st=8)]),
         "C19": dict(pkg="c19", fuzz=[dict(name="FuzzDirectives", secs=45)], tests=[T("TestPinned"), T("TestDirectives", 12000, 160000, sq=8, st=16), T("TestDirectivesGateway", 240, 4000, sq=6, st=8, pkg="c06")]),
         "C20": dict(pkg="c20", tests=[T("TestPinned"), T("TestLimiter", 480, 24000, sq=8, st=16, race=True), T("TestNestedWith", 480, 6400, sq=4, st=8), T("TestBatchJoiners", 640, 9600, sq=4, st=8, race=True)]),
-        "C04": dict(pkg="c04", tests=[T("TestRerun", 7200, 96000, sq=8, st=16, race=True), T("TestArmRace", 2400, 40000, sq=4, st=8)]),
+        "C04": dict(pkg="c04", tests=[T("TestRerun", 7200, 96000, sq=8, st=16, race=True), T("TestArmRace", 2400, 40000, sq=4, st=8), T("TestRegisterRace", 1600, 24000, sq=4, st=8)]),
         "C05": dict(pkg="c05", tests=[T("TestBatch", 6000, 64000, sq=8, st=16, race=True)]),
     }
